@@ -97,6 +97,14 @@ CHECKS = {
             {'name': 'Harness_C17_lifetime', 'pkg': 'samlsp', 'replay': 'direct', 'must_reach': ['wired']},
         ],
     },
+    'C19': {
+        'level_text': 'one-step obligations from arbitrary store contents with every Store call allowed to fail: path exploration + z3 decide that GetSession yields a session only for the stored user\'s current password or the cookie of a stored unexpired session, that responses are written only with a session and a registry hit, that the registry is kept in step with the stored services, and that exactly one reply is sent; replayed natively with real bcrypt.',
+        'level_note': 'real Server.GetSession, sendLoginForm, HandleLogin, service/registry handlers and the IdP ServeSSO / ServeIDPInitiated path executed from SSA over a typed in-harness Store whose every call may return an I/O error. bcrypt is an uninterpreted Match(hash, password) with Match(Generate(p), q) iff p = q and no match for an absent or malformed hash; html/template Execute and encoding/json are contract stubs; net/http helpers as in C17. Outside: multi-request histories beyond what the one-step invariants imply, JSON encoding, bcrypt itself.',
+        'harnesses': [
+            {'name': 'Harness_C19_session', 'pkg': 'samlidp', 'replay': 'direct', 'must_reach': ['returned', 'no-session', 'session-by-password', 'session-by-cookie'],
+             'validate_labels': ['session-by-password', 'session-by-cookie', 'no-session'], 'quick': {'params': {'store.faults': 1}}, 'thorough': {'params': {'store.faults': 1}}},
+        ],
+    },
     'C18': {
         'level_text': 'path exploration + z3 decide that both logout entry points report valid only for a rooted document whose root carries a trusted signature and whose Destination, Issuer, Status and freshness are right, and that such a response is accepted; counterexamples replayed natively on real signed XML.',
         'level_note': 'real ValidateLogoutResponseForm / Redirect, validateLogoutResponse, validateSignature and the helpers of the response flow executed from SSA on a materialised LogoutResponse (arbitrary fields, Issuer nil-able, unsigned / trusted / untrusted signature, or no root element). The library reads time.Now() here: the harness clock and the library clock are assumed to be within one second of each other. base64/flate are contract stubs (inverse of the encoder used by the harness). goxmldsig Validate as in C01.',
